@@ -22,4 +22,12 @@ Definition chk (c : case) : bool :=
                          | (name, f) :: _ => check_array_sort dinfer natsort_less name f inp out
                          | [] => false
                          end
+  else if kind =? 4 then    (* top -a: ks = [(x, domax); (k-as-decimal-text, _); group-by names ...] *)
+    match ks with
+    | (x, mx) :: (kt, _) :: g => match C06.Model.parse_int 10 kt with
+                                 | Some k => check_top dinfer (negb (mx =? 0)) k x (map fst g) inp out
+                                 | None => false
+                                 end
+    | _ => false
+    end
   else records_eqb (map sort_within_record inp) out.
